@@ -132,3 +132,75 @@ pub fn tuple_u64_u32_roundtrip() {
     assert!(d == x && off == 12);
     kani::cover!(true);
 }
+
+// ---- the fixed-width leaf codecs of the records (C14, rule N37): round trip inside a larger buffer, exact consumption ----
+// (complete: the value ranges over every bit pattern, every loop is bounded by the constant width, unwinding assertions on)
+#[kani::proof]
+#[kani::unwind(10)]
+pub fn u8ed_roundtrip() {
+    let x: u8 = kani::any();
+    let v: U8ED = x.into();
+    let mut buf = vec![0xAAu8];
+    v.encode(&mut buf);
+    assert!(buf.len() == 9);          // one 64-bit limb, big endian
+    buf.push(0x55);
+    let (d, off) = U8ED::decode(&buf, 1).unwrap();
+    assert!(d == v && off == 9);
+    kani::cover!(true);
+}
+
+#[kani::proof]
+#[kani::unwind(10)]
+pub fn u256ed_roundtrip() {
+    let limbs: [u64; 4] = kani::any();
+    let v = U256ED::new(alloy::primitives::Uint::<256, 4>::from_limbs(limbs));
+    let mut buf = vec![0xAAu8];
+    v.encode(&mut buf);
+    assert!(buf.len() == 33);
+    buf.push(0x55);
+    let (d, off) = U256ED::decode(&buf, 1).unwrap();
+    assert!(d == v && off == 33);
+    kani::cover!(true);
+}
+
+#[kani::proof]
+#[kani::unwind(10)]
+pub fn u512ed_roundtrip() {
+    let limbs: [u64; 8] = kani::any();
+    let v = U512ED::new(alloy::primitives::Uint::<512, 8>::from_limbs(limbs));
+    let mut buf = vec![0xAAu8];
+    v.encode(&mut buf);
+    assert!(buf.len() == 65);
+    buf.push(0x55);
+    let (d, off) = U512ED::decode(&buf, 1).unwrap();
+    assert!(d == v && off == 65);
+    kani::cover!(true);
+}
+
+#[kani::proof]
+#[kani::unwind(34)]
+pub fn b256ed_roundtrip() {
+    let bytes: [u8; 32] = kani::any();
+    let v: B256ED = bytes.into();
+    let mut buf = vec![0xAAu8];
+    v.encode(&mut buf);
+    assert!(buf.len() == 33 && buf[1..33] == bytes);
+    buf.push(0x55);
+    let (d, off) = B256ED::decode(&buf, 1).unwrap();
+    assert!(d == v && off == 33);
+    kani::cover!(true);
+}
+
+#[kani::proof]
+#[kani::unwind(22)]
+pub fn addressed_roundtrip() {
+    let bytes: [u8; 20] = kani::any();
+    let v: AddressED = bytes.into();
+    let mut buf = vec![0xAAu8];
+    v.encode(&mut buf);
+    assert!(buf.len() == 21 && buf[1..21] == bytes);
+    buf.push(0x55);
+    let (d, off) = AddressED::decode(&buf, 1).unwrap();
+    assert!(d == v && off == 21);
+    kani::cover!(true);
+}
